@@ -21,6 +21,7 @@ type c04Step struct {
 type c04Case struct {
 	ConstETag bool      `json:"constant_etag_large_body"`
 	SMax      bool      `json:"lifetime_from_s_maxage"`
+	Head      bool      `json:"head_requests_interleaved"`
 	URI       string    `json:"uri"`
 	T         int64     `json:"T"`
 	Age       string    `json:"origin_age"`
@@ -45,6 +46,7 @@ func c04Gen(rnd *rand.Rand, i int) c04Case {
 	}
 	c.SMax = rnd.Intn(3) == 0
 	c.ConstETag = rnd.Intn(3) == 0
+	c.Head = rnd.Intn(3) == 0
 	l := ans{Kind: "cacheable", T: t, Age: c.Age}.lifetime()
 	n := 6 + rnd.Intn(10)
 	for j := 0; j < n; j++ {
@@ -75,6 +77,8 @@ func c04RunCase(r *hx.Run, w *W, ps *plans, c c04Case, tg c04Target, rnd *rand.R
 	ps.set(c.URI, &plan{Seq: []ans{a}})
 	defer ps.del(c.URI)
 	m := &entryModel{LenientFresh: true, CheckBodyVersion: true}
+	// HEAD requests on the same URI have their own key and therefore their own entry with its own lifetime
+	mh := &entryModel{LenientFresh: true}
 	epochs := 0
 	boundaryAt, boundaryAfter := false, false
 	var trace []interface{}
@@ -95,6 +99,21 @@ func c04RunCase(r *hx.Run, w *W, ps *plans, c c04Case, tg c04Target, rnd *rand.R
 		for _, f := range w.Farm.LogSince(before) {
 			if f.URI == c.URI {
 				fetches = append(fetches, f)
+			}
+		}
+		if c.Head {
+			beforeH := w.Farm.LogLen()
+			resH := burst(w, 1+si%3, hx.Req{Method: "HEAD", Addr: tg.addr, Host: "c04.example", URI: c.URI})
+			var fetchesH []*hx.Fetch
+			for _, f := range w.Farm.LogSince(beforeH) {
+				if f.URI == c.URI {
+					fetchesH = append(fetchesH, f)
+				}
+			}
+			r.Add("head_requests", int64(len(resH)))
+			if kind, text := mh.burstCheck(now, resH, fetchesH, func(*hx.Fetch) ans { return a }, c.Age == ""); kind != "" {
+				r.Violate(kind, map[string]string{"mode": "sequential_head", "target": tg.name}, "HEAD on the same URI: "+text, map[string]interface{}{"trace": trace, "results": briefs(resH)}, map[string]interface{}{"case": c, "target": tg.name})
+				return
 			}
 		}
 		if wasHit && elapsed == m.T {
